@@ -1,6 +1,6 @@
 (* Correspondence checker for C06 (convert_units). Column values: the cells' float-bit tokens. *)
 From PdV Require Export Common.
-From PdV.Model Require Export Convert Normalize.
+From PdV.Model Require Export Convert Normalize ConvertStore.
 
 Definition vals := list N.
 Definition vals_eqb (a b : vals) : bool := list_eqb N.eqb a b.
@@ -29,13 +29,22 @@ Definition col_eqb (a b : column vals) : bool :=
   str_eqb (c_name a) (c_name b) && str_eqb (c_unit a) (c_unit b) && vals_eqb (c_vals a) (c_vals b).
 Definition mkcol (n u : str) (v : vals) : column vals := {| c_name := n; c_unit := u; c_vals := v |}.
 
-(* observed: error code (0 = a table was returned) and the returned columns *)
-Definition case : Type := list (column vals) * disp * conv_tab * N * list (column vals).
+(* observed: error code (0 = a table was returned), the returned columns, and the columns of the
+   original table as they are after the call *)
+Definition case : Type := list (column vals) * disp * conv_tab * N * list (column vals) * list (column vals).
 
+(* the call as the code performs it, on a store holding the original as object 0: the outcome, the
+   new object, and the original afterwards; and the pure specification beside it *)
 Definition check (c : case) : bool :=
-  let '(cols, p, tab, code, res) := c in
+  let '(cols, p, tab, code, res, after) := c in
+  let '(st', r) := convert_units_store (lookup tab) (to_dispatcher p) [cols] 0 in
+  match nth_error st' 0 with Some o => list_eqb col_eqb o after | None => false end &&
+  match r with
+  | inl id => N.eqb code 0 && match nth_error st' id with Some o => list_eqb col_eqb o res | None => false end
+  | inr e => N.eqb code (err_code e)
+  end &&
   match convert_units (lookup tab) (to_dispatcher p) cols with
-  | inl r => N.eqb code 0 && list_eqb col_eqb r res
+  | inl r' => N.eqb code 0 && list_eqb col_eqb r' res
   | inr e => N.eqb code (err_code e)
   end.
 
